@@ -459,4 +459,17 @@ theorem s8_self_default_refused :
     (match build s8SelfDoc with | .error (.lib .sdl) => true | _ => false) = true ∧ (Declared s8SelfDoc).isSome = true := by
   constructor <;> decide
 
+/-- `input I { a: String }  type Query { f(i: I = {a: "x"}): Int }  extend input I { b: String! }` -/
+def staleDoc : Doc := [
+  .type { kind := .input, name := "I", inputFields := [{ name := "a", type := .named "String" }] },
+  .type { kind := .object, name := "Query",
+          fields := [{ name := "f", type := .named "Int", args := [{ name := "i", type := .named "I", default := some (.obj [("a", .str "x")]) }] }] },
+  .ext { kind := .input, name := "I", inputFields := [{ name := "b", type := .nonNull (.named "String") }] }]
+
+/-- a default that an extension makes invalid (a new required field) is NOT kept (fix C11-H3-6): the document declares
+    no schema and the builder refuses it with an SDL error -/
+theorem stale_default_rejected :
+    (match build staleDoc with | .error (.lib .sdl) => true | _ => false) = true ∧ (Declared staleDoc).isNone = true := by
+  constructor <;> decide
+
 end PyGql.Props.C11
